@@ -12,17 +12,10 @@
    of the library is modelled and proved equivalent in model/EC.v / proofs/ECLemmas.v).
    Executable definitions only. *)
 From Coq Require Import NArith ZArith.
-From BV Require Import lib.Ints.
+From BV Require Import lib.Ints model.EC.
 Local Open Scope Z_scope.
 
-Fixpoint be_val_acc (acc : Z) (l : list N) : Z :=
-  match l with [] => acc | b :: r => be_val_acc (acc * 256 + Z.of_N b) r end.
-Definition be_val (l : list N) : Z := be_val_acc 0 l.
-Fixpoint le_bytes_z (k : nat) (v : Z) : list N :=
-  match k with O => [] | S j => Z.to_N (v mod 256) :: le_bytes_z j (v / 256) end.
-(* WriteBE32 / 32-byte big-endian scalar *)
-Definition be_bytes_z (k : nat) (v : Z) : list N := rev (le_bytes_z k v).
-
+(* be_val / be_bytes_z (ReadBE32 / WriteBE32 / 32-byte big-endian scalars) are those of model/EC.v *)
 Definition HARDENED : Z := 2147483648.   (* nChild >> 31 != 0  <=>  nChild >= 2^31 *)
 
 Section Bip32.
